@@ -24,6 +24,7 @@ structure Tabs where
   tok : List (Url × List TokResp) := []
   reg : List (Url × RegResp) := []
   fetch : FetchAnswer := .err
+  ntsFails : Bool := false     -- NewTokenSource is configured and returns an error in this round
 
 /-- The world the model is run in: every answer is looked up by URL (an unlisted URL answers 4xx /
 failure; a token endpoint answers its listed attempts, then fails). -/
@@ -33,6 +34,7 @@ def Tabs.world (t : Tabs) : World where
   reg := fun x => (t.reg.lookup x).getD .fail
   tok := fun i x => ((t.tok.lookup x).getD []).getD i .fail
   fetch := fun _ => t.fetch
+  ntsFails := t.ntsFails
 
 def isAsWk : Wk → Bool
   | .asOAuth | .asOIDC | .asOAuthIns | .asOIDCIns | .asOIDCApp => true
@@ -322,7 +324,7 @@ def outName : Outcome → String
   | .asmUrl => "asm-url" | .asmFetch => "asm-fetch" | .asmIssuer => "asm-issuer" | .asmPkce => "asm-pkce" | .asmField => "asm-field"
   | .preIss => "pre-iss" | .reg => "reg" | .noReg => "no-reg"
   | .fetch => "fetch" | .state => "state" | .issMissing => "iss-missing" | .issMismatch => "iss-mismatch" | .issUnexpected => "iss-unexpected"
-  | .exch => "exch" | .post => "post"
+  | .exch => "exch" | .tsErr => "ts-err" | .post => "post"
 
 /-- What the monitor would be given if the implementation behaved exactly like the model. -/
 def obsOf (r : Result) : Obs := { out := outName r.outcome, inst := r.installed, events := r.log.map Event.erase }
